@@ -187,3 +187,156 @@ def apalache(module, init="Init", next_="Next", inv="Inv", length=0, cinit=None,
         raise Infra("Apalache did not prove %s (a property of the specification, not of /repo):\n%s" % (what, out[-2000:]))
     log("[apalache] %s: NoError (%.1fs)" % (what, time.time() - t0))
     return {"check": what, "outcome": "NoError", "wall_s": round(time.time() - t0, 1), "domain": domain}
+
+
+# ---------------------------------------------------------------------------------------------------
+# Binding self-test: a trace the specification accepts is corrupted in ONE recorded value and judged
+# again; a specification that really constrains the recorded behaviour must reject it.  The result is a
+# table (event kind, field) -> trials / rejected.  Fields that are never bound are either descriptive
+# (labels; listed in selftest_descriptive.txt with the reason) or a hole in the trace specification.
+SELFTEST = []
+
+def _leaves(x, path=()):
+    if isinstance(x, dict):
+        for k, v in x.items():
+            yield from _leaves(v, path + (k,))
+    elif isinstance(x, list):
+        for i, v in enumerate(x):
+            yield from _leaves(v, path + (i,))
+    else:
+        yield path, x
+
+def _mutate(v, in_array, rng):
+    if isinstance(v, bool):
+        return not v
+    if isinstance(v, int):
+        if in_array and 0 <= v <= 255:
+            return v ^ (1 << rng.randrange(8))
+        return v + 1
+    if isinstance(v, str):
+        if v in ("true", "false"):
+            return "false" if v == "true" else "true"
+        if v and all(c in "0123456789abcdef" for c in v):
+            i = rng.randrange(len(v))
+            return v[:i] + ("0" if v[i] != "0" else "1") + v[i + 1:]
+        return v + "x"
+    return None
+
+def _set(e, path, val):
+    for p in path[:-1]:
+        e = e[p]
+    e[path[-1]] = val
+
+def corrupt_line(line, rng, descriptive=()):
+    """one type-preserving change of one recorded value; returns (new line, event kind, field, old, new) or None"""
+    e = json.loads(line)
+    keys = [k for k in e if k not in ("ev",) and k not in descriptive]
+    rng.shuffle(keys)
+    for k in keys:
+        lv = list(_leaves(e[k], (k,)))
+        if not lv:
+            continue
+        path, old = lv[rng.randrange(len(lv))]
+        new = _mutate(old, len(path) > 1, rng)
+        if new is None or new == old:
+            continue
+        _set(e, path, new)
+        return json.dumps(e, separators=(",", ":")), e.get("ev", "?"), k, old, new
+    return None
+
+def selftest_descriptive():
+    """fields that describe an event for the reader and are not judged: module -> set of field names"""
+    out = {}
+    p = os.path.join(VERIF, "selftest_descriptive.txt")
+    if os.path.exists(p):
+        for l in open(p):
+            l = l.split("#")[0].strip()
+            if l:
+                mod, fields = l.split(":", 1)
+                out.setdefault(mod.strip(), set()).update(fields.split())
+    return out
+
+def selftest(label, module, cfg, trace, env=None, heap="6g", stateless=True, n=None, judge_fn=None):
+    import random
+    n = n or int(os.environ.get("VERIF_SELFTEST", "0"))
+    if n <= 0:
+        return
+    rng = random.Random(seed() * 7919 + len(SELFTEST))
+    lines = open(trace).read().splitlines()
+    desc = selftest_descriptive().get(module, set())
+    trials = []
+    # spread the trials over the event kinds, not over the lines (a trace is mostly one kind)
+    by_kind = {}
+    for i, l in enumerate(lines):
+        m = l.find('"ev":"')
+        k = l[m + 6:l.find('"', m + 6)] if m >= 0 else "?"
+        by_kind.setdefault(k, []).append(i)
+    kinds = sorted(by_kind)
+    t = 0
+    while len(trials) < n and t < 5 * n:
+        k = kinds[t % len(kinds)]
+        t += 1
+        li = rng.choice(by_kind[k])
+        c = corrupt_line(lines[li], rng, desc)
+        if c:
+            trials.append((li,) + c)
+    jf = judge_fn or (lambda lab, tr, exp: judge(lab, module, cfg, tr, env=env, expect_events=exp, heap=heap))
+    results = []
+    if stateless:
+        for b in range(0, len(trials), 25):
+            batch = trials[b:b + 25]
+            pth = "%s.selftest%d" % (trace, b)
+            with open(pth, "w") as f:
+                for tr_ in batch:
+                    f.write(tr_[1] + "\n")
+            try:
+                v = jf("%s-selftest%d" % (label, b), pth, len(batch))
+                hit = {x["l"] for x in v["viols"]} | {x["l"] for x in v.get("drift", []) if isinstance(x, dict)}
+                for i, tr_ in enumerate(batch):
+                    results.append((tr_, (i + 1) in hit, ""))
+            except Infra as ex:   # an evaluation error on a corrupted value: judged one by one
+                for i, tr_ in enumerate(batch):
+                    p1 = "%s.%d" % (pth, i)
+                    open(p1, "w").write(tr_[1] + "\n")
+                    try:
+                        v = jf("%s-selftest%d-%d" % (label, b, i), p1, 1)
+                        results.append((tr_, v["nviol"] > 0 or bool(v.get("drift")), ""))
+                    except Infra as ex1:
+                        results.append((tr_, True, "rejected by an evaluation error (shape of the value)"))
+    else:
+        from concurrent.futures import ThreadPoolExecutor
+        def one(i_tr):
+            i, tr_ = i_tr
+            pth = "%s.selftest%d" % (trace, i)
+            with open(pth, "w") as f:
+                for j, l in enumerate(lines):
+                    f.write((tr_[1] if j == tr_[0] else l) + "\n")
+            try:
+                v = jf("%s-selftest%d" % (label, i), pth, len(lines))
+                d = v.get("drift")
+                return (tr_, v["nviol"] > 0 or (d if isinstance(d, int) else len(d or [])) > 0, "")
+            except Infra:
+                return (tr_, True, "rejected by an evaluation error (shape of the value)")
+        with ThreadPoolExecutor(max_workers=max(2, NCPU // 2)) as ex:
+            results = list(ex.map(one, enumerate(trials)))
+    table = {}
+    for (li, _, kind, field, old, new), hit, note in results:
+        t_ = table.setdefault("%s.%s" % (kind, field), {"trials": 0, "rejected": 0, "missed_examples": []})
+        t_["trials"] += 1
+        t_["rejected"] += 1 if hit else 0
+        if not hit and len(t_["missed_examples"]) < 3:
+            t_["missed_examples"].append({"line": li + 1, "old": old, "new": new})
+    rej = sum(1 for r in results if r[1])
+    log("[selftest] %s (%s): %d of %d single-value corruptions rejected" % (label, module, rej, len(results)))
+    for k, t_ in sorted(table.items()):
+        if t_["rejected"] < t_["trials"]:
+            log("[selftest]   NOT BOUND %s: %d of %d accepted, e.g. %s" % (k, t_["trials"] - t_["rejected"], t_["trials"], t_["missed_examples"][:1]))
+    SELFTEST.append({"label": label, "module": module, "trials": len(results), "rejected": rej, "fields": table})
+
+def selftest_write(pid):
+    if not SELFTEST:
+        return
+    d = os.path.join(VERIF, "evidence", "selftest")
+    os.makedirs(d, exist_ok=True)
+    json.dump({"property": pid, "seed": seed(), "what": "single-value corruptions of accepted traces, judged again by the trace specification",
+               "runs": SELFTEST}, open(os.path.join(d, pid + ".json"), "w"), indent=1)
